@@ -249,9 +249,12 @@ class Findings(dict):
         return out
 
 
+STRUCT_VOCAB = [b"if", b"elsif", b"else", b"anyof", b"not", b"true", b"keep", b"stop", b"(", b")", b"{", b"}", b";", b",", b"require",
+                b'"a"', b"header", b":is", b"/*c*/", b"["]
+
+
 def _enum_task(args):
-    first, maxlen, budget = args
-    vocab = VOCAB
+    first, maxlen, budget, vocab, frontier_only = args
     t0 = time.time()
     stats = {"sequences": 0, "viable": 0, "timeout": False, "lexer_steps_max_ratio": 0.0}
     findings = Findings()
@@ -270,11 +273,26 @@ def _enum_task(args):
             findings.note((pid, cls), data.decode("latin-1"), detail)
         if len(samples) < 2 and not dis and v.status == "valid" and len(seq) >= 4:
             samples.append({"script": data.decode("latin-1"), "verdict": "both accept, trees equal"})
-        if len(seq) >= maxlen:
-            return
         dead_real = (r["verdict"] is False and "end of script reached" not in (r.get("error") or "")) or r["verdict"] == "exception"
         dead_ref = v.status == "invalid" and v.index is not None
-        if dead_real and dead_ref:
+        if dead_real != dead_ref and r["verdict"] != "exception":
+            # the two parsers disagree on whether this prefix can still become a script: look for a completion on which
+            # their verdicts differ (only an actual script with differing verdicts is reported)
+            for comp in COMPLETIONS:
+                d2 = data + b" " + comp
+                dis2, r2, v2 = compare(d2)
+                stats["sequences"] += 1
+                for (pid, cls, detail) in dis2:
+                    if pid == "C01":
+                        findings.note((pid, cls), d2.decode("latin-1"), detail)
+                if dis2:
+                    break
+        if len(seq) >= maxlen:
+            return
+        if (dead_real and dead_ref) or (frontier_only and (dead_real or dead_ref)):
+            # dead for both: every extension is rejected by both.  Dead for one only: that parser rejects every extension,
+            # so only completions the other one accepts matter -- they were searched just above (deep mode); the exhaustive
+            # mode keeps extending such prefixes as well
             return
         stats["viable"] += 1
         for t in vocab:
@@ -284,9 +302,15 @@ def _enum_task(args):
     return stats, findings, samples
 
 
-def enumerate_parallel(maxlen, budget_s, jobs=16):
+COMPLETIONS = [b";", b") { }", b") { keep ; }", b"{ }", b"{ keep ; }", b"] ;", b"] { }", b") ) { }", b"true ) { }", b'"a" ;', b'"a" "b" { }',
+               b"} ", b"; }", b", true ) { }", b'"a" ] ;']
+
+
+def enumerate_parallel(maxlen, budget_s, jobs=16, vocab=None, frontier_only=False):
     import multiprocessing as mp
-    tasks = [((a,), maxlen, budget_s) for a in VOCAB]
+    vocab = vocab or VOCAB
+    tasks = [((a, b), maxlen, budget_s, vocab, frontier_only) for a in vocab for b in vocab] if frontier_only else \
+        [((a,), maxlen, budget_s, vocab, frontier_only) for a in vocab]
     ctx = mp.get_context("fork")
     with ctx.Pool(jobs) as pool:
         results = pool.map(_enum_task, tasks, chunksize=1)
@@ -306,10 +330,18 @@ def bounded_tokens(pid, tier, seed, pids=None):
     """exhaustive token sequences (pruned where both parsers have already rejected a prefix)"""
     maxlen = 4 if tier == "quick" else 5
     stats, findings, samples = enumerate_parallel(maxlen, 120 if tier == "quick" else 1500)
+    # a second, deeper enumeration over the structural tokens only (blocks, test lists, elsif/else chains, semicolons)
+    smax = 7 if tier == "quick" else 9
+    st2, f2, s2 = enumerate_parallel(smax, 240 if tier == "quick" else 2400, vocab=STRUCT_VOCAB, frontier_only=True)
+    findings.merge(f2)
+    stats["sequences"] += st2["sequences"]
+    stats["viable"] += st2["viable"]
+    stats["timeout"] = stats["timeout"] or st2["timeout"]
     vio = findings.violations(pid, "tokens", pids or (pid,))
     return {"name": "token-sequences", "bound": "all sequences of <= %d tokens over a %d-token vocabulary (every token class, "
-            "commands of each kind, tags incl. upper case): %d sequences run, %d viable prefixes extended%s"
-            % (maxlen, len(VOCAB), stats["sequences"], stats["viable"], "; TIME BUDGET HIT" if stats["timeout"] else ""),
+            "commands of each kind, tags incl. upper case) and, over the %d structural tokens, all sequences of <= %d tokens every proper prefix of which "
+            "both parsers still consider viable (+ 15 completions wherever they disagree on viability): %d sequences run, %d viable prefixes extended%s"
+            % (maxlen, len(VOCAB), len(STRUCT_VOCAB), smax, stats["sequences"], stats["viable"], "; TIME BUDGET HIT" if stats["timeout"] else ""),
             "rule": "distinct = token sequence; a prefix is not extended once both the real parser and the reference have "
                     "rejected it at one of its tokens", "evaluations": stats["sequences"], "distinct": stats["viable"],
             "samples": samples, "exhaustive": not stats["timeout"], "stable": not stats["timeout"], "violations": vio}
@@ -321,7 +353,7 @@ def bounded_generated(pid, tier, seed, pids=None):
     # deterministic on purpose (VERIF_SEED is NOT used here): the known-finding signatures pin how each listed class fails
     # on exactly this corpus, so the corpus must not vary from run to run
     rng = random.Random(1)
-    S = g.scripts(1)
+    S = g.scripts(1) + g.nested_scripts()
     evals = 0
     distinct = set()
     findings = Findings()
@@ -343,7 +375,8 @@ def bounded_generated(pid, tier, seed, pids=None):
                 findings.note((p, cls), data.decode("latin-1"), detail)
             if not dis and len(samples) < 2 and style:
                 samples.append({"script": data.decode("latin-1")[-120:], "verdict": "accepted, tree equals the source"})
-        for kind, i, t2 in g.single_edits(toks, rng, 6 if tier == "quick" else 30):
+        for kind, i, t2 in g.single_edits(toks, rng, 6 if tier == "quick" else 30) + \
+                g.construct_edits(toks, rng, 6 if tier == "quick" else 30):
             data = g.render(t2, 0)
             evals += 1
             distinct.add(data)
